@@ -231,8 +231,6 @@ def r144(ctx, fx):
         ("mos::lsp::rename::RenameHandler", "next"): "groups edits per file into a map; edits of one file are disjoint ranges",
         ("mos_core::codegen::analysis::Definition::contains", "any"): "existential test",
         ("mos_core::codegen::analysis::Definition::try_get_usage_containing", "find"): "usages of one definition do not overlap: at most one contains a position",
-        ("mos_core::codegen::analysis::Definition::usages", "collect_vec"): "set of usages: callers treat the result as a set (references / highlights)",
-        ("mos_core::codegen::analysis::Definition::definition_and_usages", "collect_vec"): "set of locations: callers treat the result as a set",
         ("mos_core::codegen::analysis::Analysis::find_filter", "collect"): "definitions containing a position; see `first-of-hash` below for callers that pick one",
     }
     n = 0
@@ -335,11 +333,38 @@ def r148(ctx, fx):
     ctx.floor(rid, 15, "handlers scanned")
 
 
+def r149(ctx, fx):
+    rid = ctx.rule("R14.9", "diagnostics of files that left the project are withdrawn: publish_diagnostics keeps, in a field of the context that it both reads and "
+                   "updates, which files it reported diagnostics for, and its publishing loop is not confined to the files of the current parse tree "
+                   "(without such a record a file whose import was removed keeps its last diagnostics at the client forever)")
+    pub = fx.fn("mos::lsp::documents::publish_diagnostics")
+    if pub is None:
+        ctx.fail_closed(rid, "documents::publish_diagnostics not found")
+        return
+    key = "publish_diagnostics|remembers-published-files"
+    LCX = "mos::lsp::LspContext"
+    written = {n for of, n, kind, _, _ in lib.writes_of(pub) if of == LCX}
+    read = set()
+    for b in pub.blocks:
+        for st in b["stmts"] + [b["term"]]:
+            for pl in _places(st):
+                for e in (pl.get("p") or []):
+                    if isinstance(e, dict) and e.get("of") == LCX and "n" in e:
+                        read.add(e["n"])
+    memo = sorted((written & read) - {"tree", "error", "codegen", "connection"})
+    ctx.inst(rid, key, sample={"fields_read": sorted(read), "fields_updated": sorted(written), "record": memo})
+    if not memo:
+        ctx.finding(rid, key, "publish_diagnostics keeps no record of the files it published diagnostics for (it updates no field of the context): when a file with "
+                    "errors drops out of the import tree, or the entry file disappears, the client keeps that file's last diagnostics — a fresh server given the "
+                    "same buffers would show none", pub.where)
+
+
 def run(ctx):
     fx = ctx.facts
     cg = lib.CallGraph(fx)
     r141(ctx, fx, cg)
     r148(ctx, fx)
+    r149(ctx, fx)
     r146(ctx, fx)
     r142(ctx, fx)
     r143(ctx, fx)
